@@ -38,6 +38,11 @@ def run(tier):
     famo = dict(peers=P, enabled=["Submit", "PeerUp", "RetryTick"],
                 cat={"o1": attr("app", "far", tsg=3, oldts=True), "o2": attr("app", "p2", tsg=3, oldts=True), "o3": attr("app", "far", tsg=3, oldts=True)})
     plans.append(dict(name="old-time", fam=famo, algo="epidemic", budget=3, steps=4 if quick else 5, cap=80 if quick else 1000, mc=False))
+    # anonymous submissions (source dtn:none) of one instant, with and without a clock
+    fama = dict(peers=P, enabled=["Submit", "PeerUp", "RetryTick"],
+                cat={"n1": attr("app", "far", tsg=4, anon=True), "n2": attr("app", "p2", tsg=4, anon=True), "n3": attr("app", "far", tsg=4, anon=True),
+                     "n4": attr("app", "far", tsg=5, anon=True, clockless=True), "n5": attr("app", "far", tsg=5, anon=True, clockless=True)})
+    plans.append(dict(name="anonymous", fam=fama, algo="epidemic", budget=3, steps=4 if quick else 5, cap=90 if quick else 1000, mc=False))
     total, st = run_families(chk, "C14", plans, tier)
     own_violations(chk, "C14")
     # several goroutines submit bundles of one source and instant at the same moment
